@@ -75,6 +75,15 @@ pub fn sum_estimates<R: MemoryEstimator>(m: &HashMap<String, CacheEntry<R>>) -> 
     ensures forall|q: Seq<String>| #[trigger] wf(m@, q) && mem_total(m@, q) <= usize::MAX ==> r == mem_total(m@, q)
 { unimplemented!() }
 
+/// Result<T, E> as a cached value: its estimator impl (memory_estimator.rs) is put under contract in unit `memory_estimator`;
+/// the engines only need that it is some pure function of the value.
+pub uninterp spec fn result_mem<T, E>(r: Result<T, E>) -> nat;
+impl<T: MemoryEstimator, E: MemoryEstimator> MemoryEstimator for Result<T, E> {
+    open spec fn mem(&self) -> nat { result_mem(*self) }
+    #[verifier::external_body]
+    fn estimate_memory(&self) -> (r: usize) { unimplemented!() }
+}
+
 /// R4: `opt.map(|e| e.value.estimate_memory()).unwrap_or(0)`
 #[verifier::external_body]
 pub fn opt_estimate<R: MemoryEstimator>(o: Option<&CacheEntry<R>>) -> (r: usize)
@@ -228,3 +237,21 @@ def memloop_spec(m, o, K='s2s(key)'):
         ],
         ensures=[('fits', 'mem_total(%s, %s@) <= max_mem' % (MS, o))],
         decreases='%s@.len()' % o)
+
+
+def insert_result_ensures(m):
+    """C09 (core part): an Err is never stored and changes nothing; an Ok is stored exactly like insert(key, Ok(clone))."""
+    M0 = 'old(self).%s@' % m
+    M1 = 'final(self).%s@' % m
+    K = 's2s(key)'
+    Q1 = 'touch(old(self).order@, %s)' % K
+    return [
+        CFG_FRAME,
+        ('err_changes_nothing', ['C09'], 'value is Err ==> %s == %s && final(self).order@ == old(self).order@ && final(self).stats == old(self).stats' % (M1, M0)),
+        ('post_wf', ['C04', 'C09'], 'wf(%s, final(self).order@)' % M1),
+        ('ok_stored', ['C09', 'C01'], '(value is Ok && %s.contains_key(%s)) ==> %s[%s].value is Ok && cloned(value->Ok_0, %s[%s].value->Ok_0) && %s[%s].frequency == 0'
+         % (M1, K, M1, K, M1, K, M1, K)),
+        ('ok_fits_exact', ['C09', 'C03', 'C04'], '(value is Ok && (old(self).limit is None || %s.len() <= old(self).limit->Some_0)) ==> '
+         'final(self).order@ == %s && %s.dom() == %s.dom().insert(%s)' % (Q1, Q1, M1, M0, K)),
+        ('survivors_unchanged', ['C01', 'C09'], 'forall|x: String| x != %s && #[trigger] %s.contains_key(x) ==> %s.contains_key(x) && %s[x] == %s[x]' % (K, M1, M0, M1, M0)),
+    ]
